@@ -249,6 +249,8 @@ def gen_profdesc(rng):
             + " ".join(num(rng, 0.85) for _ in range(rng.choice([3, 3, 3, 2, 4])))
     elif r < 0.85:
         p = gen_polydesc(rng)
+        if p is not None and len(p) > 150:
+            p = p[:9]
         s = rng.choice(["poly", "POLY", "poly:", "polynom"]) + rng.choice([" ", ":", " : ", ""]) + (p or "")
     else:
         s = rng.choice(["", "lin", "bound", "poly", "linear", "x", "lin 1", "bound 1 2", "poly x", "linearx 1 2", "linear1 2",
@@ -491,7 +493,12 @@ class C19(DiffProperty):
                 cases.append(" ".join(["boundary", "%d,%s,%s,%s" % (ln, dpool(rng), dpool(rng), dpool(rng)), "-"] + ops))
             elif r < 0.77:
                 d = gen_polydesc(rng)
-                cases.append(mk_text_case("poly", None if d is None else d.encode(), ops, gen_grid(rng, True)))
+                g = gen_grid(rng, True)
+                if d is not None and len(d) > 150:
+                    # 127..131 coefficients: O(n^2) products per value; keep the history short
+                    ops = [o for o in ops if o not in "wWkK"][:6] or ["v"]
+                    g = g.split(",")[0]
+                cases.append(mk_text_case("poly", None if d is None else d.encode(), ops, g))
             elif r < 0.87:
                 cases.append(mk_text_case("profile", gen_profdesc(rng).encode() if rng.random() < 0.97 else None, ops,
                                           gen_grid(rng, rng.random() < 0.1)))
